@@ -112,6 +112,31 @@ Theorem C15_txn_files : forall (st : state) (ops : list txop) (id t tu f : Z) (s
 Proof. exact txn_snapshot_files. Qed.
 Print Assumptions C15_txn_files.
 
+(* A path can be registered more than once (append_files accepts a file that is already listed; a re-run ingestion
+   job does exactly that): in several manifests, or several times in one.  A delete reaches EVERY registration: no
+   entry that survives is named, wherever it sat in the manifest list and however many registrations of the same
+   path preceded it; in the snapshot a transaction commits, an entry named by a queued delete can only be one of the
+   transaction's own appends. *)
+Theorem C15_delete_complete : forall (ps : list path) (mfs : list manifest) (e : entry),
+  In e (entries (apply_deletes ps mfs)) -> named ps e = false.
+Proof. exact delete_complete. Qed.
+Print Assumptions C15_delete_complete.
+
+Theorem C15_txn_delete_complete : forall (st : state) (ops : list txop) (id t tu f : Z) (st' : state) (s : snap) (e : entry),
+  step_full st (Txn ops id t tu f) = (st', Committed, Some s) ->
+  In e (entries (mlist s)) -> named (tx_dels ops) e = true ->
+  estatus e = ST_ADDED /\ eadded e = id /\ eseq e = seq s /\ In (epath e) (tx_adds ops).
+Proof. exact txn_delete_complete. Qed.
+Print Assumptions C15_txn_delete_complete.
+
+(* non-vacuity for the two statements above: file 1 registered by snapshots 1 and 3 (second time under the other
+   spelling) and twice more by snapshot 4 inside one manifest, file 2 in between; deleting file 1 leaves file 2 only *)
+Example C15_delete_complete_nonvacuous :
+  let e p a := {| epath := p; estatus := ST_ADDED; eadded := a; eseq := a |} in
+  map (map ekey) (apply_deletes [(1, 1)] [[e (1, 1) 1]; [e (1, 2) 2]; [e (0, 1) 3]; [e (1, 1) 4; e (1, 2) 4; e (0, 1) 4]])
+  = [[((1, 2), 2, 2)]; [((1, 2), 4, 4)]].
+Proof. vm_compute. reflexivity. Qed.
+
 (* through every history, every manifest entry of every committed snapshot carries the id and the sequence number
    of the snapshot that added the file (where it appears as an ADDED entry), and that number is <= the snapshot's *)
 Theorem C15_entries_provenance : forall (t0 f0 : Z) (ops : list op),
